@@ -29,11 +29,14 @@ type c18Op struct {
 }
 
 type c18Case struct {
-	Kind   string  `json:"writer"` // section | attowriter
-	Base   int64   `json:"base"`
-	N      int64   `json:"n"`
-	Cursor int64   `json:"cursor,omitempty"` // positioned by Seek(Cursor, SeekStart) first
-	Ops    []c18Op `json:"ops"`
+	Kind   string `json:"writer"` // section | attowriter
+	Base   int64  `json:"base"`
+	N      int64  `json:"n"`
+	Cursor int64  `json:"cursor,omitempty"` // positioned by Seek(Cursor, SeekStart) first
+	// Bystander: a second SectionWriter (other base, other underlying writer) is written to and
+	// seeked between the steps; it must not influence the writer under test
+	Bystander bool    `json:"bystander,omitempty"`
+	Ops       []c18Op `json:"ops"`
 }
 
 func init() {
@@ -41,7 +44,7 @@ func init() {
 		ID:    "C18",
 		Level: "model_checking",
 		Rule: "E2+E3: for every section (base in {0,5}, n in 0..4) a breadth-first search over the cursor states reachable inside the window [0, n+6] (observed through Seek(0, SeekCurrent)); from EVERY state EVERY operation of the alphabet {Write(len 0..6), WriteAt(len 0..6, off in [-1,n+1]), Seek(offset in [-7,n+2], whence in {-1,0,1,2,3})} × EVERY answer of the scripted underlying WriterAt {everything; k<len bytes with an error; k<len bytes without an error, k in {0,1,2}} is executed on a real SectionWriter positioned there by real calls. " +
-			"Independently every operation sequence of depth ≤3 over a reduced alphabet runs on one object without any state merging (guards against hidden state), and AtToWriter(w, off in {0,5}) runs every sequence of ≤3 Writes × answers. Oracle: the statement's cursor model — compared are return values (count, error class: nil / ErrShortWrite / the underlying error / some error for rejected Seeks), the exact list of non-empty (offset, bytes) calls the underlying writer received, containment in [base, base+n), the cursor afterwards and Size(). Non-trivial: transitions in which bytes reach the underlying writer or the cursor moves.",
+			"Independently every operation sequence of depth ≤3 over a reduced alphabet runs on one object without any state merging (guards against hidden state) - alone and once more with a second SectionWriter over another underlying writer used between the steps (objects must not share state) -, and AtToWriter(w, off in {0,5}) runs every sequence of ≤3 Writes × answers. Oracle: the statement's cursor model — compared are return values (count, error class: nil / ErrShortWrite / the underlying error / some error for rejected Seeks), the exact list of non-empty (offset, bytes) calls the underlying writer received, containment in [base, base+n), the cursor afterwards and Size(). Non-trivial: transitions in which bytes reach the underlying writer or the cursor moves.",
 		Assumptions: []string{
 			"cursors beyond the window n+6 are executed once (as successors) but not expanded",
 			"zero-length writes: whether the underlying writer is called at all is not fixed by the statement, so empty calls are ignored in the comparison and only the benign answer is scripted for them",
@@ -218,8 +221,17 @@ func c18Exec(cs c18Case) (got, want string, moved bool) {
 			want += fmt.Sprintf("position:%d,nil;", cs.Cursor)
 		}
 	}
+	var by *iohelper.SectionWriter
+	if cs.Bystander {
+		by = iohelper.NewSectionWriter(&c18Under{}, 3, 7)
+	}
 	for i, op := range cs.Ops {
 		before := m.cur
+		if by != nil {
+			by.Write([]byte("xy"))
+			by.Seek(int64(i%5), io.SeekStart)
+			by.WriteAt([]byte("z"), int64(i%7))
+		}
 		u.ans, u.armed = op.Ans, true
 		wv := m.step(op, i)
 		var gv string
@@ -386,6 +398,12 @@ func c18Run(c *mc.Ctx) {
 			}
 			if got != want {
 				c.Fail(1<<50|int64(ci)<<40|seqs, "section", "section/sequence", cs, got, want)
+			}
+			// bystander: the same sequence while a second SectionWriter over another underlying
+			// writer is used between the steps must give the same transcript
+			cs.Bystander = true
+			if g2, _, _ := c18Exec(cs); g2 != got {
+				c.Fail(1<<51|int64(ci)<<40|seqs, "section", "section/bystander", cs, g2, want)
 			}
 		}
 		for _, a := range red {
